@@ -7,6 +7,7 @@ import (
 	"go/constant"
 	"go/token"
 	"go/types"
+	"sort"
 	"strings"
 
 	"golang.org/x/tools/go/ssa"
@@ -249,12 +250,24 @@ func h2h3(w *World, r *Report, name string) {
 	key := "crypto.(*SFilePV)." + name
 	checks := w.callsTo(fn, fref{pkgCrypto, "SFilePVLastSignState", "CheckHRS"})
 	signs := w.callsTo(fn, fref{"github.com/tendermint/tendermint/crypto", "PrivKey", "Sign"})
-	saves := w.callsTo(fn, fref{pkgCrypto, "SFilePV", "saveSigned"})
+	// the recorder: the callee that stores the last-sign fields and calls Save()
+	// (whatever its name and receiver)
+	var saves []ssa.CallInstruction
+	var sum *recSummary
+	for _, c := range CallsIn(fn) {
+		if cal := c.Common().StaticCallee(); cal != nil && w.InModule(cal) {
+			if s := w.recordSummary(cal); s != nil {
+				saves = append(saves, c)
+				sum = s
+			}
+		}
+	}
 	if len(checks) != 1 || len(signs) != 1 || len(saves) != 1 {
-		r.Undecided("H-2", key+":shape", fmt.Sprintf("expected exactly one CheckHRS, Sign and saveSigned call, found %d/%d/%d", len(checks), len(signs), len(saves)), fnSite(w, fn))
+		r.Undecided("H-2", key+":shape", fmt.Sprintf("expected exactly one CheckHRS call, one PrivKey.Sign call and one call of a function that records the last-sign state and saves it; found %d/%d/%d", len(checks), len(signs), len(saves)), fnSite(w, fn))
 		return
 	}
 	chk, sign, save := checks[0], signs[0], saves[0]
+	c20Recorders[sum.fn] = sum
 	chkV := callValue(chk)
 	same := extractOf(chkV, 0)
 	cerr := extractOf(chkV, 1)
@@ -374,12 +387,48 @@ func h2h3(w *World, r *Report, name string) {
 	} else {
 		r.Violate("H-3", key+":no-success-without-save", "a success return is reachable after PrivKey.Sign without saveSigned", nil, site(w, sign), site(w, badRet))
 	}
-	_, sargs := callRecvArgs(save.Common())
+	// the recorder's arguments, in terms of its summary: which actual value lands
+	// in which field, and which object is updated
+	sargs := save.Common().Args
 	_, signArgs := callRecvArgs(sign.Common())
-	argsOK := len(sargs) == 5 && len(chkArgs) == 3 && len(signArgs) == 1 &&
-		sameValue(sargs[0], chkArgs[0]) && sameValue(sargs[1], chkArgs[1]) && sameValue(sargs[2], chkArgs[2]) &&
-		sameValue(sargs[3], signArgs[0]) && sig != nil && sameValue(sargs[4], sig)
-	r.Check(argsOK, "H-3", key+":save-arguments", "saveSigned receives the checked (height, round, step), the signed bytes and the signature", "saveSigned does not record the values that were checked and signed", site(w, save))
+	arg := func(f string) ssa.Value {
+		if i, ok := sum.fieldParam[f]; ok && i < len(sargs) {
+			return sargs[i]
+		}
+		return nil
+	}
+	argsOK := len(chkArgs) == 3 && len(signArgs) == 1 && sig != nil
+	if argsOK {
+		for i, f := range []string{"Height", "Round", "Step"} {
+			a := arg(f)
+			argsOK = argsOK && a != nil && sameValue(a, chkArgs[i])
+		}
+		sb, sg := arg("SignBytes"), arg("Signature")
+		argsOK = argsOK && sb != nil && sg != nil && sameValue(sb, signArgs[0]) && sameValue(sg, sig)
+	}
+	r.Check(argsOK, "H-3", key+":save-arguments", sum.fn.Name()+" records the checked (height, round, step), the signed bytes and the signature", sum.fn.Name()+" does not record the values that were checked and signed", site(w, save))
+	// the object updated must be the signer's own LastSignState (the memory the
+	// next CheckHRS reads), not a copy of it
+	locOK, locWhy := false, ""
+	if sum.baseParam < len(sargs) {
+		base := stripConv(sargs[sum.baseParam])
+		pv := ssa.Value(fn.Params[0])
+		switch {
+		case sum.viaField && base == pv:
+			locOK = true
+		case !sum.viaField:
+			if fa, ok := base.(*ssa.FieldAddr); ok && stripConv(fa.X) == pv && fieldName(fa.X.Type(), fa.Field) == "LastSignState" {
+				locOK = true
+			} else if _, isAlloc := base.(*ssa.Alloc); isAlloc {
+				locWhy = "the state is recorded into a local copy of pv.LastSignState: the signer's in-memory state, which the next CheckHRS reads, is not advanced"
+			} else {
+				locWhy = "the state is recorded into " + w.Canon(base) + ", not into pv.LastSignState"
+			}
+		default:
+			locWhy = "the recorder is not applied to this signer (" + w.Canon(base) + ")"
+		}
+	}
+	r.Check(locOK, "H-3", key+":save-location", "the recorded state is the signer's own pv.LastSignState (the object every later CheckHRS reads)", "the last-sign record is not written to the signer's own state: "+locWhy, site(w, save))
 
 	// the checked HRS must be the message's own height/round (and step)
 	hrOK := len(chkArgs) == 3 && w.isFieldLoad(chkArgs[0], "p1", "Height") && w.isFieldLoad(chkArgs[1], "p1", "Round")
@@ -438,45 +487,25 @@ func (w *World) returnsErrOf(ret *ssa.Return, call ssa.Value) bool {
 // ---- H-4
 
 func h4(w *World, r *Report) {
-	fn := needFn(r, "H-4", w, fref{pkgCrypto, "SFilePV", "saveSigned"})
-	if fn != nil {
-		saves := w.callsTo(fn, fref{pkgCrypto, "SFilePVLastSignState", "Save"})
-		if len(saves) != 1 {
-			r.Violate("H-4", "saveSigned:Save", fmt.Sprintf("saveSigned calls LastSignState.Save %d times (expected once)", len(saves)), nil, fnSite(w, fn))
-		} else {
-			sv := saves[0]
-			rcv, _ := callRecvArgs(sv.Common())
-			r.Check(w.Canon(rcv) == "recv.LastSignState", "H-4", "saveSigned:Save-receiver", "Save() is called on pv.LastSignState", "Save() is not called on pv.LastSignState", site(w, sv))
-			want := map[string]int{"Height": 0, "Round": 1, "Step": 2, "SignBytes": 3, "Signature": 4}
-			got := map[string]bool{}
-			for _, fs := range w.fieldStores(fn) {
-				pi, ok := want[fs.Field.Name()]
-				if !ok {
-					continue
-				}
-				fa := fs.Addr.(*ssa.FieldAddr)
-				if w.Canon(fa.X) != "recv.LastSignState" {
-					continue
-				}
-				p, isP := stripConv(fs.Val).(*ssa.Parameter)
-				if cv, ok := stripConv(fs.Val).(*ssa.ChangeType); ok {
-					p, isP = cv.X.(*ssa.Parameter)
-				}
-				if cv, ok := stripConv(fs.Val).(*ssa.Convert); ok {
-					p, isP = cv.X.(*ssa.Parameter)
-				}
-				idx := -2
-				if isP {
-					idx, _ = paramIndex(p)
-				}
-				good := idx == pi && instrDominates(fs.In, sv)
-				got[fs.Field.Name()] = true
-				r.Check(good, "H-4", "saveSigned:store:"+fs.Field.Name(), "field stored from the matching parameter before Save()", "field "+fs.Field.Name()+" is not stored from its parameter before Save() (stale last-sign record on disk)", site(w, fs.In))
-			}
-			for f := range want {
-				if !got[f] {
-					r.Violate("H-4", "saveSigned:store:"+f, "saveSigned does not store LastSignState."+f+" (the record on disk would not identify the signed HRS/message)", nil, fnSite(w, fn))
-				}
+	if len(c20Recorders) == 0 {
+		r.Undecided("H-4", "recorder", "no function that records the last-sign state and saves it is called from signVote / signProposal")
+	}
+	var recs []*recSummary
+	for _, s := range c20Recorders {
+		recs = append(recs, s)
+	}
+	sort.Slice(recs, func(i, j int) bool { return w.FName(recs[i].fn) < w.FName(recs[j].fn) })
+	for _, sum := range recs {
+		nm := sum.fn.Name()
+		r.Check(sum.nSave == 1, "H-4", nm+":Save", "the recorder saves the state exactly once, on the object whose fields it stored", fmt.Sprintf("%s calls Save %d times (expected once)", nm, sum.nSave), site(w, sum.save))
+		for _, f := range []string{"Height", "Round", "Step", "SignBytes", "Signature"} {
+			st, ok := sum.stores[f]
+			switch {
+			case !ok:
+				r.Violate("H-4", nm+":store:"+f, nm+" does not store LastSignState."+f+" (the record on disk would not identify the signed HRS/message)", nil, fnSite(w, sum.fn))
+			default:
+				_, fromParam := sum.fieldParam[f]
+				r.Check(fromParam && instrDominates(st, sum.save), "H-4", nm+":store:"+f, "field stored from a parameter before Save()", "field "+f+" is not stored from a parameter before Save() (stale last-sign record on disk)", site(w, st))
 			}
 		}
 	}
@@ -682,4 +711,84 @@ func h6(w *World, r *Report) {
 	} else {
 		r.Violate("H-6", "PrivKey.Sign:callers", "PrivKey.Sign is called outside signVote/signProposal (a signature that bypasses the HRS check)", nil, callers...)
 	}
+}
+
+// ---- the recorder summary (location based, independent of names and receivers)
+
+type recSummary struct {
+	fn         *ssa.Function
+	baseParam  int  // parameter through which the state object is reached
+	viaField   bool // true: state is param.LastSignState; false: state is *param
+	fieldParam map[string]int
+	stores     map[string]ssa.Instruction
+	save       ssa.CallInstruction
+	nSave      int
+}
+
+var c20Recorders = map[*ssa.Function]*recSummary{}
+
+// recordSummary: fn calls SFilePVLastSignState.Save on an object reached from
+// one of its parameters and stores fields of that same object.
+func (w *World) recordSummary(fn *ssa.Function) *recSummary {
+	if fn == nil || fn.Blocks == nil {
+		return nil
+	}
+	saves := w.callsTo(fn, fref{pkgCrypto, "SFilePVLastSignState", "Save"})
+	if len(saves) == 0 {
+		return nil
+	}
+	// root of a state pointer: (param index, viaField)
+	root := func(v ssa.Value) (int, bool, bool) {
+		v = stripConv(v)
+		if p, ok := v.(*ssa.Parameter); ok {
+			if i, ok := paramIndexRaw(fn, p); ok {
+				return i, false, true
+			}
+		}
+		if fa, ok := v.(*ssa.FieldAddr); ok && fieldName(fa.X.Type(), fa.Field) == "LastSignState" {
+			if p, ok := stripConv(fa.X).(*ssa.Parameter); ok {
+				if i, ok := paramIndexRaw(fn, p); ok {
+					return i, true, true
+				}
+			}
+		}
+		return 0, false, false
+	}
+	rcv, _ := callRecvArgs(saves[0].Common())
+	bp, via, ok := root(rcv)
+	if !ok {
+		return nil
+	}
+	sum := &recSummary{fn: fn, baseParam: bp, viaField: via, fieldParam: map[string]int{}, stores: map[string]ssa.Instruction{}, save: saves[0], nSave: len(saves)}
+	for _, fs := range w.fieldStores(fn) {
+		fa := fs.Addr.(*ssa.FieldAddr)
+		i, v, ok := root(fa.X)
+		if !ok || i != bp || v != via {
+			continue
+		}
+		sum.stores[fs.Field.Name()] = fs.In
+		val := stripConv(fs.Val)
+		if cv, ok := val.(*ssa.ChangeType); ok {
+			val = cv.X
+		}
+		if cv, ok := val.(*ssa.Convert); ok {
+			val = cv.X
+		}
+		if p, ok := val.(*ssa.Parameter); ok {
+			if pi, ok := paramIndexRaw(fn, p); ok {
+				sum.fieldParam[fs.Field.Name()] = pi
+			}
+		}
+	}
+	return sum
+}
+
+// paramIndexRaw: index of p in fn.Params (receiver included at 0).
+func paramIndexRaw(fn *ssa.Function, p *ssa.Parameter) (int, bool) {
+	for i, q := range fn.Params {
+		if q == p {
+			return i, true
+		}
+	}
+	return 0, false
 }
